@@ -74,6 +74,15 @@ PROPS = {
         assumptions=["POSIX durability contract: fsync(file) makes data durable, fsync(dir) makes entries durable, rename is atomic"],
         harnesses=[dict(name="VerifGobDurable", bounds=dict(quick=dict(CALLS=10), thorough=dict(CALLS=12)), opts=dict(unwind=3000))],
     ),
+    "C11": dict(
+        pkg=PD,
+        explanation="appendPDFObject (the writer's object serialiser) followed by model.ParseObjectContext (the reader's object parser), executed symbolically: every leaf kind with symbolic content (null, boolean, integer up to INTMAX in magnitude, names without NUL, escaped literal strings and hex strings of <= S bytes, indirect references), and arrays / dictionaries / nested containers over every ordered pair of neighbouring leaf kinds (separator decisions) with representative concrete leaves and a symbolic one-byte dictionary key; hex strings compare by their bytes, null dictionary entries read back as absent",
+        outside="reals (strconv.AppendFloat on symbolic floats is out of reach), integers beyond INTMAX (the digit reconstruction query is unknown at 120 s for long digit strings in every encoding/solver), strings longer than S bytes, nesting deeper than 2, Dict.PDFString / Array.PDFString (the second serialisation path)",
+        harnesses=[
+            dict(name="VerifObjectLeafRoundTrip", bounds=dict(quick=dict(S=1, INTMAX=999), thorough=dict(S=2, INTMAX=99999)), opts=dict(unwind=300, timeout_ms=60000)),
+            dict(name="VerifObjectPairRoundTrip", bounds=dict(quick=dict(S=1, INTMAX=9), thorough=dict(S=1, INTMAX=9)), opts=dict(unwind=300)),
+        ],
+    ),
     "C12": dict(
         pkg=TY,
         explanation="Escape/Unescape and EncodeName/DecodeName executed symbolically on byte strings whose every byte is an unconstrained SMT variable (lengths 0..N forked); oracles (odd backslash run before each parenthesis; regular printable alphabet; '#' only followed by two hex digits) are plain Go in the harness",
